@@ -976,6 +976,29 @@ def pretty(code, width=150):
     return '\n    '.join(lines)
 
 
+# when a function can no longer be translated its gen_f falls back on the model function (the site is reported as untied)
+FALLBACK = {
+    'gen_increase_last_voted_round': '(p_target : N) : M unit := increase_last_voted p_target',
+    'gen_make_vote': '(p_block : Block) : M (option Vote) := make_vote me p_block',
+    'gen_update_high_qc': '(p_qc : QC) : M unit := update_high_qc p_qc',
+    'gen_local_timeout_round': ': M unit := local_timeout c me hint',
+    'gen_handle_vote': '(p_vote : Vote) : M unit := handle_vote c me hint p_vote',
+    'gen_handle_timeout': '(p_timeout : Timeout) : M unit := handle_timeout c me hint p_timeout',
+    'gen_advance_round': '(p_round : N) : M unit := advance_round p_round',
+    'gen_generate_proposal': '(p_tc : option TC) : M unit := generate_proposal me hint p_tc',
+    'gen_cleanup_proposer': '(p_b0 p_b1 p_block : Block) : M unit := proposer_cleanup (b_payload p_b0 ++ b_payload p_b1 ++ b_payload p_block)',
+    'gen_process_qc': '(p_qc : QC) : M unit := process_qc p_qc',
+    'gen_process_block': '(p_block : Block) : M unit := process_block c me dq hint p_block',
+    'gen_handle_proposal': '(p_block : Block) : M unit := handle_proposal c me dq hint p_block',
+    'gen_handle_tc': '(p_tc : TC) : M unit := handle_tc c me hint p_tc',
+    'gen_store_block': '(p_block : Block) : M unit := store_block p_block',
+    'gen_get_ancestors': '(p_block : Block) : M (option (Block * Block)) := get_ancestors p_block',
+    'gen_get_parent_block': '(p_block : Block) : M (option Block) := get_parent_block p_block',
+    'gen_mempool_verify': '(p_block : Block) : M bool := mempool_verify p_block',
+    'gen_commit': '(p_block : Block) : M unit := commit dq p_block',
+}
+
+
 def main():
     core = open(os.path.join(REPO, 'consensus/src/core.rs')).read()
     sync = open(os.path.join(REPO, 'consensus/src/synchronizer.rs')).read()
@@ -1023,7 +1046,8 @@ def main():
             status.append({'name': gname, 'file': fname, 'fn': fn, 'line': line, 'ok': True})
         except (Untranslatable, R.ParseError, SyntaxError, KeyError, IndexError, TypeError) as ex:
             status.append({'name': gname, 'file': fname, 'fn': fn, 'ok': False, 'untied': '%s: %s' % (type(ex).__name__, ex)})
-            defs.append('(* UNTIED %s: %s *)' % (gname, str(ex).replace('*)', '* )')))
+            # reported as untied by ./check; the definition falls back on the model function so that the file and the other tie lemmas still compile
+            defs.append('(* UNTIED %s: %s *)\nDefinition %s (c : Committee) (me : N) (dq : DqCfg) (hint : list N) %s.' % (gname, str(ex).replace('*)', '* )'), gname, FALLBACK[gname]))
     hdr = ('(* GENERATED by tools/skel.py from %s -- do not edit.  The statement skeleton of each function, in the monad of Node.v;\n'
            '   callees are the model functions; Tie.v proves each gen_f equal to the model function f. *)\n'
            'From Coq Require Import List NArith Bool.\nFrom HS Require Import GTac Node SkelPrims.\nImport ListNotations.\nOpen Scope N_scope.\n\n'
